@@ -124,8 +124,7 @@ def run_case(case):
     tree = P.from_json(case["tree"])
     if case.get("state_id") is not None:
         reset_state_counter(case["state_id"])
-    atoms, share = case.get("mode") or ("plain", False)
-    r = call_sut(P.to_expr, tree, atoms, share)
+    r = call_sut(P.to_expr, tree, *(case.get("mode") or ("plain", False)))
     if r[0] == "exc":
         return (f"build:{r[1]}", _msg(tree, case["seq"], r[2]))
     return check_pair(tree, r[1], list(case["seq"]), _entry_points())
@@ -179,7 +178,7 @@ def enum_trees(col, sizes, part, nparts, max_len, selftest=False):
                 col.fail({"tree": P.to_json(tree), "seq": "", "mode": list(mode), "state_id": sid}, f"build:{r[1]}", r[2])
                 col.bulk(1, 1 if nt else 0)
                 continue
-            col.label(f"atoms:{mode[0]}" + ("+shared-operators" if mode[1] and P.has_repeated_subpattern(tree) else ""))
+            col.label(f"atoms:{mode[0]}" + ("+shared-operators" if mode[1] and P.has_repeated_subpattern(tree) else "") + ("+bare-operands" if mode[2] else ""))
             expr = r[1]
             failed = False
             try:
